@@ -76,7 +76,7 @@ fn gettid() -> i64 {
 }
 
 /// runs `f` on its own thread (2 MiB stack, like the server's pool threads)
-fn timed<F: FnOnce() + Send + 'static>(f: F) -> Outcome {
+fn timed<F: FnOnce() + Send + 'static>(limit: Duration, f: F) -> Outcome {
     let (tx, rx) = mpsc::channel::<Result<(), ()>>();
     let (ttx, trx) = mpsc::channel::<i64>();
     let h = std::thread::Builder::new().stack_size(2 * 1024 * 1024).spawn(move || {
@@ -88,7 +88,7 @@ fn timed<F: FnOnce() + Send + 'static>(f: F) -> Outcome {
         return Outcome::Panic;
     }
     let tid = trx.recv_timeout(Duration::from_secs(5)).unwrap_or(-1);
-    match rx.recv_timeout(deadline()) {
+    match rx.recv_timeout(limit) {
         Ok(Ok(())) => Outcome::Completes,
         Ok(Err(())) => Outcome::Panic,
         Err(_) => {
@@ -132,11 +132,11 @@ fn item(name: &str, kind: SymbolKind, uri: &Url) -> TypeHierarchyItem {
     }
 }
 
-fn do_request(pm: &ProjectManager, kind: &str, f: &MFile) -> Outcome {
+fn do_request(pm: &ProjectManager, kind: &str, f: &MFile, limit: Duration) -> Outcome {
     let mut pm = pm.clone();
     let f = f.clone();
     let kind = kind.to_string();
-    timed(move || match kind.as_str() {
+    timed(limit, move || match kind.as_str() {
         "diag" => {
             let _ = pm.generate_document_diagnostic_report(&f.uri);
         }
@@ -299,7 +299,7 @@ fn run_case(words: &[&str], out: &mut dyn Write) -> bool {
         };
         let _ = write!(out, "start:{} ", req);
         let _ = out.flush();
-        let o = do_request(&pm, kind, f);
+        let o = do_request(&pm, kind, f, deadline());
         let _ = write!(out, "r:{}={} ", req, o.s());
         let _ = out.flush();
         if o == Outcome::Deadlocks || o == Outcome::Spins {
@@ -310,7 +310,8 @@ fn run_case(words: &[&str], out: &mut dyn Write) -> bool {
     if !clean {
         // a second request on the same manager, per file
         for (i, f) in ws.files.iter().enumerate() {
-            let o = do_request(&pm, "diag", f);
+            // (a blocked thread stays blocked: a shorter deadline is enough here, /proc confirms)
+            let o = do_request(&pm, "diag", f, deadline().min(Duration::from_millis(400)));
             let _ = write!(out, "after:diag@{}={} ", i, o.s());
             let _ = out.flush();
         }
